@@ -74,7 +74,16 @@ def write_codebook(w, cb):
     w.write(cb["dim"], 16)
     lengths = cb["lengths"]
     w.write(len(lengths), 24)
-    if cb.get("ordered"):
+    if cb.get("runs") is not None:
+        # explicit ordered encoding: first length, then run counts written verbatim
+        # (each with ilog(entries - assigned so far) bits, as the reader expects)
+        w.write(1, 1)
+        w.write(cb["first_len"] - 1, 5)
+        i, n = 0, len(lengths)
+        for cnt in cb["runs"]:
+            w.write(cnt, ilog(max(n - i, 0)))
+            i += cnt
+    elif cb.get("ordered"):
         w.write(1, 1)
         # lengths must be non-decreasing and all used
         w.write(lengths[0] - 1, 5)
